@@ -128,3 +128,60 @@ Proof.
   destruct (source_groups_same_prob ws pfloat encb reason copen _ _ lines gs Ho Hl) as (its & Hi & H1 & H2).
   exists gs, its. repeat split; assumption.
 Qed.
+
+(* ---- the hypotheses are satisfiable and the translated _load_terminals runs: a configuration with one alpha
+   file and two capitalisation files, under --skip_case *)
+Definition gx_fo : fops :=
+  {| F := Z; f_one := 1%Z; f_mone := (-1)%Z; f_zero := 0%Z; f_eqb := Z.eqb; f_sub := Z.sub; f_div := Z.div;
+     f_iszero := Z.eqb 0%Z |}.
+Definition gx_files (sec : pstr) : list pstr :=
+  if str_eqb sec k_BASE_A then [[49; 46; 116; 120; 116]%N]
+  else if str_eqb sec k_CAPITALIZATION then [[49; 46; 116; 120; 116]; [50; 46; 116; 120; 116]]%N
+  else [].
+Definition gx_name (sec : pstr) : pstr :=
+  if str_eqb sec k_BASE_A then [65%N] else if str_eqb sec k_CAPITALIZATION then [67%N] else [88%N].
+(* every file holds two values of probability 1 and one of probability 0 *)
+Definition gx_load (_ : list (rt_item (F gx_fo))) (_ _ : pstr) : outcome (list (rt_item (F gx_fo)) * bool) :=
+  Done ([{| it_values := [[97%N]; [98%N]]; it_prob := 1%Z |}; {| it_values := [[99%N]]; it_prob := 0%Z |}], true).
+(* a section is its name; `filenames` is the section name itself, which the json oracle maps to the list *)
+Definition gx_world : world gx_fo unit pstr :=
+  {| w_cfg := {| cp_read_file := fun _ => XDone tt; cp_read := fun _ => XDone tt;
+                 cp_get := fun _ _ _ => XDone [117; 116; 102; 45; 56]%N;
+                 cp_section := fun _ sec => XDone sec;
+                 cp_sect_get := fun sec k => if str_eqb k k_filenames then XDone (Some sec)
+                                             else if str_eqb k k_name then XDone (Some (gx_name sec))
+                                             else XDone (Some sec);
+                 cp_json := fun sec => XDone (VList (map VStr (gx_files sec))) |};
+     w_ws := fun c => N.eqb c 32; w_pfloat := fun _ => None;
+     w_pint := fun s => match s with [c] => Some (Z.of_N c - 48)%Z | _ => None end;
+     w_path_join := fun l => TextFile.join 47%N l;
+     w_codecs_open := fun _ _ _ => XFail (XBase EIO); w_open := fun _ _ _ => XFail (XBase EIO);
+     w_load_from_file := gx_load;
+     w_scorer_load_from_file := fun d _ _ => Done (d, true);
+     w_load_base_structures := fun l _ _ _ => Done (l, true) |}.
+
+Definition gx_view : cfg_view :=
+  let v := fun sec => (sec, gx_name sec, gx_files sec) in
+  {| cv_A := v k_BASE_A; cv_CAP := v k_CAPITALIZATION; cv_D := v k_BASE_D; cv_O := v k_BASE_O;
+     cv_K := v k_BASE_K; cv_Y := v k_BASE_Y; cv_X := v k_BASE_X |}.
+
+Example load_terminals_example :
+  cfg_view_ok gx_fo gx_world tt gx_view /\
+  exists G, py_load_terminals gx_fo gx_world (VDict [(VStr k_encoding, VStr [117; 116; 102; 45; 56]%N)]) (VDict [])
+              (VStr []) (VCfg tt) (VBool true) = XDone (VDict G, VBool true) /\
+    (* the alpha list of 1.txt: the two groups of the file *)
+    dfind (VStr [65; 49]%N) G = Some (val_of_items [{| it_values := [[97%N]; [98%N]]; it_prob := 1%Z |};
+                                                     {| it_values := [[99%N]]; it_prob := 0%Z |}]) /\
+    (* C1, C2: one all-lower group of probability 1.0 each *)
+    dfind (VStr [67; 49]%N) G = Some (val_of_items [lower_group gx_fo 1]) /\
+    dfind (VStr [67; 50]%N) G = Some (val_of_items [lower_group gx_fo 2]) /\
+    (* M: the three levels of the file, each its own group *)
+    dfind (VStr k_M) G = Some (val_of_items [{| it_values := [[97%N]]; it_prob := 1%Z |};
+                                             {| it_values := [[98%N]]; it_prob := 1%Z |};
+                                             {| it_values := [[99%N]]; it_prob := 0%Z |}]).
+Proof.
+  split.
+  - unfold cfg_view_ok, section_ok, sect_wf. repeat split; eexists; (split; [reflexivity|]);
+      (split; [reflexivity|]); (split; [reflexivity|]); eexists; split; reflexivity.
+  - eexists. split; [vm_compute; reflexivity|]. vm_compute. repeat split.
+Qed.
